@@ -1213,7 +1213,12 @@ func SplitBMP(data []byte, atEOF bool) (advance int, token []byte, err error) {
 	if err = tmpHdr.DecodeFromBytes(data[:BMP_HEADER_SIZE]); err != nil {
 		return 0, nil, nil
 	}
-	if len(data) < int(tmpHdr.Length) {
+	if tmpHdr.Length < BMP_HEADER_SIZE {
+		// A message cannot be shorter than its own header; returning such a
+		// token would make no progress (Length 0) or hand out a fragment.
+		return 0, nil, fmt.Errorf("invalid BMP message length: %d", tmpHdr.Length)
+	}
+	if uint64(len(data)) < uint64(tmpHdr.Length) {
 		return 0, nil, nil
 	}
 	return int(tmpHdr.Length), data[:tmpHdr.Length], nil
